@@ -183,3 +183,20 @@ for e in ENGINES:
     if e["name"] == "gcv-typestate":
         e["kind_free_text"] = e.get("kind_free_text", "") + (" Raw accesses to the object header are interpreted over the concrete tag "
                                                                "bits with the code read off the tree's own getters (header word codec).")
+
+# ---- third session, later additions (seed rounds five and six)
+CLAIMED["C03"]["technique"] += "; def-use rule: a pointer to a builder's block is made only after the builder is disarmed / consumed"
+CLAIMED["C04"]["technique"] += "; who-may-write rule on the per-value metadata in front of the header (written only at allocation)"
+CLAIMED["C05"]["technique"] += "; call-graph rule: from a weak pointer to its value only through Context::upgrade / resurrect"
+CLAIMED["C06"]["technique"] += "; un-tabled safe lock setters discovered by signature and interpreted like the tabled adoption paths"
+CLAIMED["C07"]["technique"] += "; the live flag tracks destruction on every exit of the sweep (weakly-kept rows, automaton S6)"
+CLAIMED["C08"]["technique"] += "; pending-work rows of mark_one (what the protocol exploration's summary of it assumes)"
+CLAIMED["C11"]["technique"] += "; def-use rule: a pointer to a builder's block is made only after the builder is disarmed / consumed"
+CLAIMED["C12"]["technique"] += ("; brand-provenance rule on every exported signature (regions in brand positions, read off variances by the "
+                                "driver: an output brand must be an input brand or the bound region of a higher-ranked closure bound)")
+CLAIMED["C14"]["technique"] += "; who-may-call rule on the slot-count moves (add / inc / dec) and immutability of a handle after construction"
+CLAIMED["C15"]["technique"] += "; self-referential shapes in the corpus"
+CLAIMED["C16"]["technique"] += "; forwarding Trace impls define both methods, no kind-changing default body"
+CLAIMED["C17"]["technique"] += "; who-may-write rule on the per-value metadata in front of the header"
+CLAIMED["C18"]["technique"] += "; who-may-call rule on the unsafe builder completions; def-use rule on pointers to a builder's block"
+CLAIMED["C19"]["technique"] += "; signature rule: the coercion site of unsize! is raw-pointer to raw-pointer (+ Deref-coercion rejection witnesses)"
